@@ -148,7 +148,15 @@ def lattice_map(desc):
     return {float(x * s): x for x in range(desc["L"] + 1)}
 
 
-def read_result(res, lat):
+def probe_pair(res, a, b):
+    try:
+        sl = res[(a, b)]
+        return [len(sl), float(sl.total_span)]
+    except Exception as e:
+        return exc(e)
+
+
+def read_result(res, lat, probe=()):
     """Everything observable through the public result classes, canonicalised."""
     out = {"num_segments": int(res.num_segments), "total_span": float(res.total_span)}
     try:
@@ -168,9 +176,15 @@ def read_result(res, lat):
     out["pairs"] = pairs
     out["keys_equal_pairs"] = keys == pairs
     per = []
+    # every REQUESTED pair is looked up in both orders (KeyError expected when it has no segment)
+    out["probe"] = [[a, b, probe_pair(res, a, b), probe_pair(res, b, a)] for a, b in probe]
     for a, b in pairs:
-        sl = res[(a, b)]
-        rev = res[(b, a)]
+        try:
+            sl = res[(a, b)]
+            rev = res[(b, a)]
+        except Exception as e:
+            per.append({"lookup_error": exc(e)})
+            continue
         item = {"n": len(sl), "span": float(sl.total_span),
                 "sym": len(rev) == len(sl) and float(rev.total_span) == float(sl.total_span)}
         try:
@@ -198,6 +212,7 @@ def observe_case(case):
     except Exception as e:
         return {"edges": edges, "invalid": exc(e) + ": " + str(e)}
     kw = call_args(case)
+    probe = requested_pairs(case)
     for api, obj in (("ts", ts), ("tc", tc)):
         runs = {}
         for name, sp, ss in STORE:
@@ -208,7 +223,7 @@ def observe_case(case):
             if ss or api == "tc":
                 k["store_segments"] = ss
             try:
-                runs[name] = read_result(obj.ibd_segments(**k), lat)
+                runs[name] = read_result(obj.ibd_segments(**k), lat, probe)
             except Exception as e:
                 runs[name] = {"error": exc(e)}
         out[api] = runs
@@ -325,13 +340,30 @@ def check_run(case, name, sp, ss, run, exp, key_prefix, out):
         return
     if run["num_pairs"] != len(exp) or run["len"] != len(exp):
         fail("num_pairs", "num_pairs=%r len=%r expected %r" % (run["num_pairs"], run["len"], len(exp)))
+    nn = len(d["nodes"])
+    if any(not (0 <= u < nn) for p in run["pairs"] for u in p):
+        fail("pair-ids-out-of-range", "pairs=%r with %d nodes" % (run["pairs"][:6], nn))
+    for a, b, fw, bw in run.get("probe", []):
+        e = exp.get((a, b))
+        want = "KeyError" if not e else [len(e), None]
+        for got, order in ((fw, (a, b)), (bw, (b, a))):
+            if want == "KeyError":
+                if got != "KeyError":
+                    fail("pair-lookup", "result[%r] -> %r, pair has no segment" % (order, got))
+            elif not isinstance(got, list) or got[0] != want[0] or \
+                    not close(got[1], sum(r - l for l, r, _ in e) * s, exact):
+                fail("pair-lookup", "result[%r] -> %r, expected %d segments span %r"
+                     % (order, got, want[0], sum(r - l for l, r, _ in e) * s))
     if run["pairs"] != [list(p) for p in sorted(exp)]:
-        fail("pairs", "pairs=%r expected %r" % (run["pairs"], sorted(exp)))
+        fail("pairs", "pairs=%r expected %r" % (run["pairs"][:8], sorted(exp)[:8]))
         return
     if not run["keys_equal_pairs"]:
         fail("pairs", "iteration differs from .pairs")
     for (a, b), item in zip(sorted(exp), run["per_pair"]):
         e = exp[(a, b)]
+        if "lookup_error" in item:
+            fail("pair-lookup", "result[(%d,%d)] raised %s for a listed pair" % (a, b, item["lookup_error"]))
+            continue
         if item["n"] != len(e):
             fail("pair-len", "len(%d,%d)=%r expected %r" % (a, b, item["n"], len(e)))
         if not close(item["span"], sum(r - l for l, r, _ in e) * s, exact):
@@ -357,10 +389,10 @@ def check_run(case, name, sp, ss, run, exp, key_prefix, out):
                 not close(item["span"], sum((r * s - l * s) for l, r, _ in got), exact):
             fail("pair-span-vs-stored", "total_span=%r, stored sum %r" % (item["span"], sum((r - l) * s for l, r, _ in got)))
     if ss:
-        stored = [tuple(x) for it in run["per_pair"] if not isinstance(it["segs"], str) for x in it["segs"]]
+        stored = [tuple(x) for it in run["per_pair"] if not isinstance(it.get("segs", ""), str) for x in it["segs"]]
         if run["num_segments"] != len(stored):
             fail("num_segments-vs-stored", "num_segments=%r, %d stored" % (run["num_segments"], len(stored)))
-        if run["num_pairs"] != len([it for it in run["per_pair"] if it["segs"]]):
+        if run["num_pairs"] != len([it for it in run["per_pair"] if it.get("segs")]):
             fail("num_pairs-vs-stored", "num_pairs=%r" % (run["num_pairs"],))
 
 
@@ -398,7 +430,7 @@ def oracle_case(case, obs):
     nofilter = case["min_span2"] == 0 and case["max_time2"] in (None, "inf")
     tt = obs["r"]["TT"]
     if nofilter and "error" not in tt and isinstance(tt.get("pairs"), list):
-        got = {tuple(p): it["segs"] for p, it in zip(tt["pairs"], tt["per_pair"]) if not isinstance(it["segs"], str)}
+        got = {tuple(p): it["segs"] for p, it in zip(tt["pairs"], tt["per_pair"]) if not isinstance(it.get("segs", ""), str)}
         for a, b in requested_pairs(case):
             cov = [0] * d["L"]
             for l, r, _u in got.get((a, b), []):
@@ -459,7 +491,7 @@ def coq_term(case, obs):
     if any("error" in r for r in (tt, tf, ff)):
         return None
     for it in tt["per_pair"]:
-        if isinstance(it["segs"], str) or any(not isinstance(v, int) for x in it["segs"] for v in x):
+        if isinstance(it.get("segs", ""), str) or any(not isinstance(v, int) for x in it["segs"] for v in x):
             return None
     c = coq_case(case, obs)
     stored = coq_obs(tt, s)
@@ -678,11 +710,75 @@ class IbdErrors(Family):
         return {"kind": case["bad"], "outcome": str(obs["ts"]) if not isinstance(obs["ts"], dict) else "accepted"}
 
 
-FAMILIES = [IbdShapes, IbdSmall, IbdLarge, IbdErrors]
+class IbdBigNodes(IbdBase):
+    """LARGE NODE TABLES: 50000-100000 mostly unused node rows and a handful of high-id nodes.
+    The pair key of the result container is min(a,b)*num_nodes + max(a,b), which exceeds 2^31 here;
+    the Coq model computes it in Z, so only this family guards the C integer widths (int64 key,
+    integer_to_pair, AVL order, get/get_keys) — oracle only.  Cases are stored sparsely."""
+    name = "ibd_bignodes"
+    coq = False
+    workers = 4
+    timeout = 120.0
+
+    def generate(self, rng, tier):
+        for k in range(6 if tier == "quick" else 24):
+            N = rng.choice([50000, 65536, 70000, 100000]) if k else 70000
+            ids = sorted(rng.sample(range(N // 2, N - 3), rng.randrange(4, 7))) if k else [40000, 50000, 60000, 65000]
+            root, mid = N - 1, N - 2
+            L = rng.randrange(2, 6)
+            cut = rng.randrange(1, L)
+            special = {str(u): [1 if (k % 3 or i % 2 == 0) else 0, 0] for i, u in enumerate(ids)}
+            special[str(mid)] = [rng.randrange(2), 1]
+            special[str(root)] = [0, 2]
+            edges = []
+            for i, u in enumerate(ids):
+                if i % 2 and rng.random() < 0.7:      # via the internal node on the left part
+                    edges += [[0, cut, mid, u], [cut, L, root, u]]
+                else:
+                    edges.append([0, L, root, u])
+            edges.append([0, L, root, mid])
+            mode = k % 3
+            within = between = None
+            if mode == 1:
+                within = [u for u in reversed(ids)] + ([mid] if rng.random() < 0.5 else [])
+            elif mode == 2:
+                between = [ids[0::2], ids[1::2] + [mid]]
+            yield {"big": {"N": N, "special": special}, "L": L, "scale": rng.choice([1, 0.5, 2.5]),
+                   "edges": edges, "within": within, "between": between,
+                   "min_span2": rng.choice([0, 0, 1, 2]), "max_time2": rng.choice([None, None, 3, 4])}
+
+    @staticmethod
+    def expand(case):
+        N = case["big"]["N"]
+        nodes = [[0, 0]] * N
+        nodes = list(nodes)
+        for u, ft in case["big"]["special"].items():
+            nodes[int(u)] = list(ft)
+        c = {k: case[k] for k in ("within", "between", "min_span2", "max_time2")}
+        c["desc"] = {"L": case["L"], "scale": case["scale"], "nodes": nodes, "edges": case["edges"]}
+        return c
+
+    def observe(self, case):
+        return observe_case(self.expand(case))
+
+    def oracle(self, case, obs):
+        return oracle_case(self.expand(case), obs)
+
+    def describe(self, case, obs):
+        return {"num_nodes": case["big"]["N"],
+                "mode": "between" if case["between"] is not None else ("within" if case["within"] is not None else "default"),
+                "max_key_bits": (max(int(u) for u in case["big"]["special"]) * case["big"]["N"]).bit_length()}
+
+    def shrink(self, case):
+        return []
+
+
+FAMILIES = [IbdShapes, IbdSmall, IbdLarge, IbdErrors, IbdBigNodes]
 
 NOT_COVERED = [
     "tsk_ibd_finder -> IbdSpec refinement is not proved in Coq (ibd_alg_refines_spec_partial); tied per run on the generated cases",
     "node ids equal to num_nodes in within/between (C09 finding F3: guard `>`), unsorted / invalid table collections",
     "AVL tree balancing and blkalloc internals of identity_segments (modelled as a key-sorted association list)",
+    "C integer widths: the model computes the pair key min*N+max in Z (no 32-bit wrap); only the oracle-level family ibd_bignodes (50000-100000 node rows, keys > 2^31) guards them",
     "floating point: coordinates are lattice*scale with exactly representable scales in the Coq correspondence; scale 1/3 is oracle-only with a 1e-9 tolerance on total_span",
 ]
